@@ -451,6 +451,22 @@ theorem spawn_lookup_exact (exports : ExportTable) :
       simp only [Bool.not_eq_true] at h
       simp [h, ih]
 
+/-- **spawn_lookup_per_instance.**  The start function of a thread-spawn call is a function of the CALLING
+    instance's export table only: whatever earlier calls of the process (by this or any other instance) found,
+    the call looks `wasi_thread_start` up in its own table — the lookup result is an automatic variable and the
+    scan is unconditional (both regenerated).  With several `w2c2 -m` modules in one process a module without
+    the export therefore always gets the negative result, and a module with its own export runs its own function. -/
+theorem spawn_lookup_per_instance (prev : Option Nat) (table : ExportTable) :
+    Gen.WasiPath.spawnLookupStorage = "automatic" ∧ Gen.WasiPath.spawnLookupSkippedWhenSet = false ∧
+    Gen.WasiPath.threadCounterStorage = "static" ∧
+    lookupCall prev table = (table.find? (fun e => e.1 == "wasi_thread_start")).map (·.2) := by
+  refine ⟨rfl, rfl, rfl, ?_⟩
+  have h : lookupEntryValue prev = none := by
+    simp [lookupEntryValue, Gen.WasiPath.spawnLookupStorage]
+  rw [← spawn_lookup_exact]
+  simp only [lookupCall, h, Option.isSome_none, Bool.and_false]
+  cases lookupStart table <;> rfl
+
 /-- no export named exactly `wasi_thread_start` ⇔ the lookup finds nothing -/
 theorem spawn_lookup_none_iff (exports : ExportTable) :
     lookupStart exports = none ↔ ∀ e ∈ exports, e.1 ≠ "wasi_thread_start" := by
